@@ -129,7 +129,7 @@ func (f *FlagSet) ParseFlags(args, environ, prefixes []string, p *properties.Pro
 			name := strings.ToUpper(pfx + strings.Replace(fl.Name, ".", "_", -1))
 			if val, ok := env[name]; ok {
 				f.set[fl.Name] = true
-				f.Set(fl.Name, val)
+				f.setOrDefault(fl, val)
 				return
 			}
 		}
@@ -140,9 +140,19 @@ func (f *FlagSet) ParseFlags(args, environ, prefixes []string, p *properties.Pro
 		}
 		if val, ok := p.Get(fl.Name); ok {
 			f.set[fl.Name] = true
-			f.Set(fl.Name, val)
+			f.setOrDefault(fl, val)
 			return
 		}
 	})
 	return nil
+}
+
+// setOrDefault sets the flag to val. A value which is not valid for the
+// flag is ignored. The flag package stores a partial result in that
+// case (e.g. 0 or the largest integer) which must not become the
+// effective value.
+func (f *FlagSet) setOrDefault(fl *flag.Flag, val string) {
+	if err := f.Set(fl.Name, val); err != nil {
+		f.Set(fl.Name, fl.DefValue)
+	}
 }
